@@ -216,6 +216,7 @@ ADDED7 = {
  'C06': 'G8: handle, implementation and table classes hold no copy of a stored value (N1 of C10); G9 = L1 of C02.',
  'C08': 'K10: transaction guard shape (BEGIN / COMMIT then flag / ROLLBACK unless committed).',
  'C11': 'W14: transaction guard shape; W15: every compressed blob stored is one complete deflate stream (S6 of C03).',
+ 'C15': 'U14: no use after free through a pointer or iterator that a possible reallocation of its container made stale (rule D7 of C05 over every function of the library).',
  'C17': 'V11: the validator call in every verify() entry is unconditional with no return statement before it, and the context objects hold no memory of an earlier verification (N1 of C10).',
  'C18': 'B14: transaction guard shape; B15: bytes of a blob are read unsigned; B16: no time-zone / locale / environment dependent C routine (mktime, localtime, strtod, getenv ...) in the repository.',
 }
